@@ -355,3 +355,59 @@ def replay_wait_for_dependencies(m):
                 problems.append(f"consumer {c.sid} has progress {c.progress.time!r}, has not reached {t!r} (lazy stepping)")
     return not problems, (f"wait_for_dependencies({me.sid}, lazy={lazy}) for step {t!r} returned from {describe(m)} "
                           f"with later progress { {n: after[n]['P'] for n in after} }: {problems}")
+
+
+def replay_step(m):
+    """native unit-level replay of scheduler.step() with a stub simulator returning the model's reply:
+    C13 (invalid replies raise an error naming the simulator, nothing is scheduled) and C02 (a valid
+    next-step time before `until` is scheduled exactly once, as (r, 0, .., 0))"""
+    import mosaik
+    from mosaik import scheduler
+    from mosaik.exceptions import SimulationError
+    from mosaik.simmanager import SimRunner
+    from mosaik.tiered_time import TieredTime
+    from tqdm import tqdm
+    case = m.get("native_case")
+    if case is None:
+        return True, "no native case in the model"
+    cs = TieredTime(*case["current_step"])
+    kind, reply, typ, until = case["reply_kind"], case["reply"], case["type"], case["until"]
+    if kind == "other" and reply is None:
+        reply = 2.5
+
+    class P(_StubProxy):
+        async def send(self, request):
+            return reply
+
+    world = mosaik.World({}, skip_greetings=True)
+    world.until = until
+    sim = SimRunner("S-0", P(typ), depth=len(cs))
+    sim.tqdm = tqdm(disable=True)
+    world.sims["S-0"] = sim
+    sim.current_step = cs
+    sim.next_steps = []
+    if case.get("next_self_step") is not None:
+        sim.next_self_step = TieredTime(case["next_self_step"], *([0] * (len(cs) - 1)))   # left over from an earlier step
+    err = None
+    try:
+        world.loop.run_until_complete(scheduler.step(world, sim, {}, until))
+    except SimulationError as e:
+        err = e
+    except AssertionError as e:
+        world.loop.close()
+        return False, f"step() with reply {reply!r} ({typ}) at {cs!r}: AssertionError({e}) instead of an error identifying the simulator"
+    finally:
+        if not world.loop.is_closed():
+            world.loop.close()
+    invalid = (kind == "other") or (kind == "int" and reply <= cs.time) or (kind == "none" and typ == "time-based")
+    desc = f"step() of a {typ} simulator at {cs!r}, until={until}, reply {reply!r}: "
+    if invalid:
+        if err is None:
+            return False, desc + f"accepted silently; next_steps = {sim.next_steps!r}"
+        ok = "S-0" in str(err) and not sim.next_steps
+        return ok, desc + f"SimulationError({str(err)[:80]}...) names simulator: {'S-0' in str(err)}; next_steps = {sim.next_steps!r}"
+    if err is not None:
+        return False, desc + f"valid reply rejected: {err}"
+    expected = [TieredTime(reply, *([0] * (len(cs) - 1)))] if kind == "int" and reply < until else []
+    ok = sim.next_steps == expected and sim.last_step == cs
+    return ok, desc + f"next_steps = {sim.next_steps!r}, expected {expected!r}; last_step = {sim.last_step!r}"
